@@ -20,6 +20,8 @@ def run_step(step, pid, tier, seed):
         return _kani(step, pid, tier)
     if step.get("kind") == "frame-strict":
         return _frame_strict(step)
+    if step.get("kind") == "gen-scan":
+        return _gen_scan(step)
     return {"undecided": ["unknown step kind %r" % step.get("kind")]}
 
 
@@ -115,4 +117,71 @@ def _frame_strict(step):
         res["obligations"] = 1
         res["discharged"] = 1
         res["samples"].append("C06-frame::strict-single-decision-point (mechanical scan: private field, read only in error_or_log @ %s:%d)" % (reads[0][0], reads[0][1]))
+    return res
+
+
+def _gen_scan(step):
+    """C03 frame of the generated parsers (mechanical): the `parse` / `parse_file` functions of specification.rs are not verified,
+    but panic-freedom of loading composes through them only if they contain no panicking construct of their own. Token scan of
+    every generated `fn parse`: no `unwrap`/`expect`/`panic!`/`unreachable!`/`assert!`, no arithmetic operator, no `as` cast, and no
+    index expression other than `parser.filenames[parser.last_token_fileid]` (in range by the proved invariant ParserState::loc_ok).
+    Loops are listed (their termination - each iteration consumes a token or ends the loop - is NOT checked here: assumption A-GEN).
+    A construct outside this list makes the step UNDECIDED ("frame lost"), never a violation."""
+    from . import rustlex
+    res = {"failures": [], "undecided": [], "bounded": [], "obligations": 0, "discharged": 0, "samples": [],
+           "cmd": "vf.steps gen-scan (token scan of the generated parse functions in a2lfile/src/specification.rs)",
+           "trusted": ["vf/steps.py gen-scan (rustlex tokens)"], "assumptions": []}
+    pth = os.path.join(vrun.REPO, "a2lfile", "src", "specification.rs")
+    try:
+        text = open(pth, encoding="utf-8").read()
+    except Exception as e:
+        res["undecided"].append("gen-scan: cannot read specification.rs: %r" % e)
+        return res
+    cut = text.find("#[cfg(test)]")
+    sf = rustlex.SourceFile("a2lfile/src/specification.rs", text[:cut] if cut > 0 else text)
+    nfn = 0
+    bad = []
+    loops = 0
+    idx_ok = 0
+    for it in sf.top:
+        if it.kind != "impl":
+            continue
+        for ch in sf.children(it):
+            if ch.kind != "fn" or ch.name not in ("parse", "parse_file"):
+                continue
+            nfn += 1
+            body = sf.text[ch.body_open:ch.end]
+            ct = rustlex.code_tokens(rustlex.lex(body))
+            for i, t in enumerate(ct):
+                k = None
+                prev = ct[i - 1] if i > 0 else None
+                if t.text == "[" and prev is not None and (prev.kind in ("ident", "num") or prev.text in (")", "]")) \
+                        and prev.text not in ("vec", "return", "in", "mut"):
+                    j = rustlex.match_close(ct, i)
+                    inner = "".join(x.text for x in ct[i + 1:j])
+                    base = "".join(x.text for x in ct[max(0, i - 3):i])
+                    if base.endswith("parser.filenames") and inner == "parser.last_token_fileid":
+                        idx_ok += 1
+                    else:
+                        k = "index `%s[%s]`" % (base, inner)
+                elif t.kind == "ident" and t.text in ("unwrap", "expect", "unreachable", "panic", "unimplemented", "todo", "assert", "assert_eq"):
+                    k = t.text
+                elif t.kind == "ident" and t.text in ("loop", "while", "for"):
+                    loops += 1
+                elif t.kind == "punct" and t.text in ("+", "-", "*", "/", "%") and prev is not None and \
+                        (prev.kind in ("ident", "num") or prev.text in (")", "]")) and i + 1 < len(ct) and ct[i + 1].text != ">":
+                    k = "arithmetic `%s`" % t.text
+                elif t.kind == "ident" and t.text == "as":
+                    k = "`as` cast"
+                if k:
+                    bad.append("%s @ %s:%d" % (k, sf.path if hasattr(sf, "path") else "specification.rs", sf.line_of(ch.body_open + t.start)))
+    res["samples"].append("gen-scan: %d generated parse functions, %d loops (termination assumed: A-GEN), %d index expressions `parser.filenames[parser.last_token_fileid]`" % (nfn, loops, idx_ok))
+    if nfn < 100:
+        res["undecided"].append("gen-scan: only %d generated parse functions found (layout of specification.rs changed?)" % nfn)
+    elif bad:
+        res["undecided"].append("frame lost: generated parse functions contain constructs that can panic and are not under contract: %s" % "; ".join(bad[:6]))
+    else:
+        res["obligations"] = 1
+        res["discharged"] = 1
+        res["samples"].append("C03-frame::generated-parsers-have-no-panicking-construct (mechanical scan of %d functions)" % nfn)
     return res
